@@ -364,7 +364,7 @@ func (g *gen) forStmt(b *block, sc *scope, d int) {
 		// a label must be used
 		body.add("if %s < 0 {\n\tcontinue %s\n}", iv.name, label)
 	}
-	style := r.Intn(4)
+	style := r.Intn(5)
 	if style == 0 {
 		b.add("%s := 0", iv.name)
 	}
@@ -387,6 +387,15 @@ func (g *gen) forStmt(b *block, sc *scope, d int) {
 	case 1:
 		g.feat("for-down")
 		b.add("for %s := %d; %s >= 0; %s-- {", iv.name, n, iv.name, iv.name)
+		b.lines = append(b.lines, body.lines...)
+		b.add("}")
+	case 4:
+		// no condition: the body leaves the loop, continue runs the post statement
+		g.feat("for-no-cond")
+		b.add("for %s := 0; ; %s++ {", iv.name, iv.name)
+		b.ind++
+		b.add("if %s >= %d {\n\tbreak\n}", iv.name, n)
+		b.ind--
 		b.lines = append(b.lines, body.lines...)
 		b.add("}")
 	default:
@@ -1052,7 +1061,60 @@ func (g *gen) faultStmt(b *block, sc *scope) {
 // range expression of an array is evaluated once (the loop sees a copy).
 func (g *gen) orderStmt(b *block, sc *scope) {
 	r := g.r
-	switch r.Intn(4) {
+	switch r.Intn(9) {
+	case 4:
+		// closures created in loops capture the variables of their own
+		// iteration; function values are appended to a slice
+		g.feat("closures-in-loops")
+		fs, tag := g.newID("fs"), g.newID("t")
+		b.add("var %s []func() int", fs)
+		b.add("for i := 0; i < %d; i++ {\n\t%s = append(%s, func() int {\n\t\treturn i * 10\n\t})\n}", 2+r.Intn(3), fs, fs)
+		b.add("for k, v := range []int{5, 6, 7} {\n\t%s = append(%s, func() int {\n\t\treturn k*100 + v\n\t}, %s[0])\n}", fs, fs, fs)
+		b.add("for i, j := 0, 9; i < 2; i, j = i+1, j-1 {\n\tp := &i\n\t%s = append(%s, func() int {\n\t\t*p += 0\n\t\treturn *p + j\n\t})\n\tif i == 0 {\n\t\tcontinue\n\t}\n\ti += 0\n}", fs, fs)
+		b.add("for n, f := range %s {\n\tprintln(%q, n, f())\n}", fs, tag)
+	case 5:
+		// keyed composite literals: the length is the maximum index plus one
+		g.feat("keyed-literals")
+		tag := g.newID("t")
+		k1, k2 := 1+r.Intn(4), r.Intn(3)
+		a, c, e := g.newID("a"), g.newID("a"), g.newID("a")
+		b.add("%s := []int{%d: 1, %d: 5, 7}", a, k1+k2+1, k2)
+		b.add("%s := []string{%d: \"x\", \"y\", %d: \"z\"}", c, k1, k1+3+k2)
+		b.add("%s := [...]int8{%d: 1, %d: 3}", e, k1+k2+2, k2)
+		b.add("println(%q, len(%s), cap(%s), len(%s), len(%s))", tag, a, a, c, e)
+		b.add("for i, v := range %s {\n\tprintln(%q, i, v)\n}", a, tag)
+		b.add("for i, v := range %s {\n\tprintln(%q, i, v)\n}", c, tag)
+	case 6:
+		// named results changed by deferred closures, also after a recovered panic
+		g.feat("named-results-deferred")
+		tag := g.newID("t")
+		f1, f2, f3 := g.newID("nr"), g.newID("nr"), g.newID("nr")
+		b.add("%s := func() (err any) {\n\tdefer func() {\n\t\terr = %s\n\t}()\n\treturn 5\n}", f1, pick(r, []string{`"set"`, "7.5", "[]int{1}", "nil"}))
+		b.add("%s := func() (n int, err any, s string) {\n\tdefer func() {\n\t\terr = recover()\n\t\tn += 2\n\t\ts += \"!\"\n\t}()\n\tn, s = 1, \"a\"\n\tvar m map[string]int\n\tm[\"k\"] = 1\n\treturn 9, nil, \"z\"\n}", f2)
+		b.add("%s := func() (e error, f func() int) {\n\tdefer func() {\n\t\tif r := recover(); r != nil {\n\t\t\te = r.(error)\n\t\t\tf = func() int { return 3 }\n\t\t}\n\t}()\n\tvar p *int\n\t_ = *p\n\treturn nil, nil\n}", f3)
+		b.add("%s(%q, %s())", g.helperShow(), tag, f1)
+		b.add("{\n\tn, err, s := %s()\n\t%s(%q, err)\n\tprintln(%q, n, s)\n}", f2, g.helperShow(), tag, tag)
+		b.add("{\n\te, f := %s()\n\tprintln(%q, e != nil, f != nil && f() == 3)\n}", f3, tag)
+	case 7:
+		// elements and fields of package-level arrays and structs: their
+		// address is the address of the variable, tuple assignments assign all of them
+		g.feat("global-elements")
+		tag := g.newID("t")
+		ga, gs := g.newID("ga"), g.newID("gs")
+		g.decls = append(g.decls, fmt.Sprintf("var %s = [3]int{1, 2, 3}", ga), fmt.Sprintf("var %s = struct{ A, B int }{1, 2}", gs))
+		b.add("{\n\tp, q := &%s[0], &%s.A\n\t*p, *q = 5, 6\n\tprintln(%q, %s[0], %s.A)\n}", ga, gs, tag, ga, gs)
+		b.add("%s[0], %s[%d] = 8, 9", ga, ga, 1+r.Intn(2))
+		b.add("%s.A, %s.B = 10, 11", gs, gs)
+		b.add("func() {\n\t%s[1], %s.B = %s[1]+20, %s.B+30\n\tr := &%s[2]\n\t*r++\n}()", ga, gs, ga, gs, ga)
+		b.add("println(%q, %s[0], %s[1], %s[2], %s.A, %s.B)", tag, ga, ga, ga, gs, gs)
+	case 8:
+		// operands of comparisons with a length are evaluated in source order
+		g.feat("len-compare-order")
+		tag := g.newID("t")
+		ti, ts := g.helperTr(TInt), g.helperTr(TString)
+		op := pick(r, []string{"<", "<=", ">", ">=", "==", "!="})
+		b.add("if %s(%q, %d) %s len(%s(%q, %s)) {\n\tprintln(%q, \"yes\")\n}", ti, tag+"a", r.Intn(5), op, ts, tag+"b", pick(r, stringLits), tag)
+		b.add("for i := 0; len(%s(%q, \"ab\")) %s %s(%q, i); i++ {\n\tif i > 3 {\n\t\tbreak\n\t}\n}", ts, tag+"c", op, ti, tag+"d")
 	case 3:
 		// an append that exactly fills, falls short of, or exceeds the
 		// capacity: the result shares the backing array in the first two cases
